@@ -259,11 +259,15 @@ MEDDLY::saturation_set_mtrel<EOP, ATYPE>
     fire_ct = new ct_entry_type("satfire");
     sat_ct  = new ct_entry_type("saturate");
 
+    //
+    // The result of recFire(L, A, B) is saturated w.r.t. the events below L,
+    // so the split relation at level L is part of the key.
+    //
     if (store_levels) {
-        fire_ct->setFixed('I', resF, arg2F);
+        fire_ct->setFixed('I', resF, arg2F, arg2F);
         sat_ct->setFixed('I', resF, arg2F);
     } else {
-        fire_ct->setFixed(resF, arg2F);
+        fire_ct->setFixed(resF, arg2F, arg2F);
         sat_ct->setFixed(resF, arg2F);
     }
 
@@ -654,9 +658,11 @@ void MEDDLY::saturation_set_mtrel<EOP, ATYPE>::recFire(int L,
         key[0].setI(L);
         key[1].setN(A);
         key[2].setN(B);
+        key[3].setN(top_at_or_below[L].getNode());
     } else {
         key[0].setN(A);
         key[1].setN(B);
+        key[2].setN(top_at_or_below[L].getNode());
     }
 
     if (fire_ct->findCT(key, res)) {
